@@ -689,14 +689,27 @@ func aliasPolicyProbe(in *AliasInput) (problem string) {
 		}
 	}()
 	installers := []struct {
-		name string
-		fn   func(stk.Stack)
+		name   string
+		fn     func(stk.Stack)
+		onCond func(stk.Condition) // installed on the first Condition of the tree instead (depth first)
 	}{
 		{"equality policy", func(c stk.Stack) {
 			c.SetEqualityPolicy(func(any, any) error { return fmt.Errorf("the child's own policy objects") })
-		}},
+		}, nil},
 		{"validity policy", func(c stk.Stack) {
 			c.SetValidityPolicy(func(...any) error { return fmt.Errorf("the child's own policy fails") })
+		}, nil},
+		{"failing unmarshaler", func(c stk.Stack) {
+			c.SetUnmarshaler(func(...any) ([]any, error) { return nil, fmt.Errorf("the child's own unmarshaler fails") })
+		}, nil},
+		{"unmarshaler handing back one marker", func(c stk.Stack) {
+			c.SetUnmarshaler(func(...any) ([]any, error) { return []any{"MARK"}, nil })
+		}, nil},
+		{"Condition with a failing unmarshaler", nil, func(c stk.Condition) {
+			c.SetUnmarshaler(func(...any) ([]any, error) { return nil, fmt.Errorf("the Condition's own unmarshaler fails") })
+		}},
+		{"Condition with a failing validity policy", nil, func(c stk.Condition) {
+			c.SetValidityPolicy(func(...any) error { return fmt.Errorf("the Condition's own policy fails") })
 		}},
 	}
 	for _, ins := range installers {
@@ -707,7 +720,27 @@ func aliasPolicyProbe(in *AliasInput) (problem string) {
 				return "", false
 			}
 			found := false
-			for i := 0; i < root.Len() && !found; i++ {
+			if ins.onCond != nil {
+				var walk func(v any, depth int)
+				walk = func(v any, depth int) {
+					if found || depth > 12 {
+						return
+					}
+					if c, ok := nativeCondOf(v); ok {
+						ins.onCond(c)
+						found = true
+						return
+					}
+					if st, ok := nativeOf(v); ok {
+						for i := 0; i < st.Len(); i++ {
+							e, _ := st.Index(i)
+							walk(e, depth+1)
+						}
+					}
+				}
+				walk(root, 0)
+			}
+			for i := 0; ins.fn != nil && i < root.Len() && !found; i++ {
 				v, _ := root.Index(i)
 				if child, isStack := nativeOf(v); isStack {
 					ins.fn(child)
@@ -723,8 +756,8 @@ func aliasPolicyProbe(in *AliasInput) (problem string) {
 				v, _ := root.Index(i)
 				nb.Push(v)
 			}
-			return fmt.Sprintf("isequal:%v/%v string:%q nesting:%v unmarshal-len:%d/%v refused-by-no-nesting:%d",
-				root.IsEqual(other) == nil, other.IsEqual(root) == nil, root.String(), root.IsNesting(), len(u), ue != nil, root.Len()-nb.Len()), true
+			return fmt.Sprintf("isequal:%v/%v string:%q nesting:%v unmarshal-len:%d/%v/%d refused-by-no-nesting:%d",
+				root.IsEqual(other) == nil, other.IsEqual(root) == nil, root.String(), root.IsNesting(), len(u), ue != nil, deepLen(u, 0), root.Len()-nb.Len()), true
 		}
 		v0, ok := answers(&in.Insts[0])
 		if !ok {
@@ -737,6 +770,20 @@ func aliasPolicyProbe(in *AliasInput) (problem string) {
 		}
 	}
 	return ""
+}
+
+// deepLen: the number of entries of an Unmarshal result, nested rows included
+func deepLen(u []any, depth int) int {
+	n := len(u)
+	if depth > 40 {
+		return n
+	}
+	for _, e := range u {
+		if l, ok := e.([]any); ok {
+			n += deepLen(l, depth+1)
+		}
+	}
+	return n
 }
 
 func minInt(a, b int) int {
